@@ -48,5 +48,6 @@ LEVEL_TEXT = ("Machine-checked over the LTS of C04 extended with Run/Stop: a com
               "signal handler is a transition enabled at every driver pc. The shipped Run (flag cleared on entry, F1) is refuted by an "
               "explicit path. Tied to /repo by scheduled executions in which thread start order and every sync point are schedule choices; "
               "each trace must be a path of the model and must end with Run returned.")
-LEVEL_NOTE = ("Trusted: as C04. 'after at most the step in progress' is checked directly on traces (<= 1 step begun after Stop returned) "
-              "and follows from stop_wakes_run + run_exits_on_stop; a single liveness theorem is not stated.")
+LEVEL_NOTE = ("Trusted: as C04. 'after at most the step in progress' is the theorem stop_at_most_one_step (along every execution fragment "
+              "with the flag up, Run begins at most one step) together with stop_wakes_run (that step's poll cannot block); it is also "
+              "checked directly on traces. That the step itself terminates depends on user handlers/tasks returning.")
